@@ -64,13 +64,29 @@ def main(tier):
             c = dict(cfg)
             c["div2"] = d
             lines.append((cid, gl.line_of(cid, c)))
+    # thorough: one more refinement (129x256 -> 257x512) for one triple per geometry x problem (grids whose circle count
+    # has the other parity, which the shorter chain never reaches)
+    deep = []
+    if tier == "thorough":
+        seen = set()
+        for i, cfg in enumerate(cfgs):
+            key = (cfg["geom"], cfg["prob"])
+            if cfg["dirbc"] == 0 and cfg["cc"] == 1 and cfg["cg"] == 1 and (key, cfg["strat"], cfg["extr"]) not in seen and \
+                    (cfg["alpha"], cfg["beta"]) == c01.PROFILES[1 + ((cfg["geom"] * 3 + cfg["prob"]) % 6)]:
+                seen.add((key, cfg["strat"], cfg["extr"]))
+                deep.append(i)
+                cid = "a%05d_%d" % (i, 4)
+                c = dict(cfg)
+                c["div2"] = 4
+                lines.append((cid, gl.line_of(cid, c)))
     res = gl.run_cases(binary, lines, chunk=4)
     worst = {"plain_l2": 9, "plain_inf": 9, "ex_l2": 9, "ex_inf": 9}
     errs = {}
     pairs = 0
     for i, cfg in enumerate(cfgs):
         name = class_name(cfg)
-        rs = [res.get("a%05d_%d" % (i, d), {"status": "crash", "kind": "missing"}) for d in chain]
+        chain_i = tuple(chain) + ((4,) if i in deep else ())
+        rs = [res.get("a%05d_%d" % (i, d), {"status": "crash", "kind": "missing"}) for d in chain_i]
         bad = [r for r in rs if r.get("status") != "ok" or r.get("finite") != "1"]
         if bad:
             r = bad[0]
@@ -80,7 +96,7 @@ def main(tier):
         e2 = [gl.num(r, "he2") for r in rs]
         ei = [gl.num(r, "heinf") for r in rs]
         errs[(name, cfg["dirbc"], cfg["strat"], cfg["cc"], cfg["cg"], cfg["extr"])] = (e2[-1], ei[-1])
-        for a in range(len(chain) - 1):
+        for a in range(len(chain_i) - 1):
             pairs += 1
             o2 = math.log(e2[a] / e2[a + 1]) / math.log(2.0) if e2[a + 1] > 0 else 99
             oi = math.log(ei[a] / ei[a + 1]) / math.log(2.0) if ei[a + 1] > 0 else 99
@@ -97,7 +113,7 @@ def main(tier):
                 rep.violation(key, "%s (%s, DirBC_Interior=%d, strategy=%d, caches=%d%d): observed order %.2f (weighted l2) / %.2f "
                               "(max) on %s, required >= %.2f / %.2f; errors %s" %
                               (name, "implicit extrapolation" if ex else "no extrapolation", cfg["dirbc"], cfg["strat"], cfg["cc"],
-                               cfg["cg"], o2, oi, grid, need2, needi, ["%.3g" % x for x in e2]), {"config": cfg, "chain": list(chain)})
+                               cfg["cg"], o2, oi, grid, need2, needi, ["%.3g" % x for x in e2]), {"config": cfg, "chain": list(chain_i)})
     # on the finest grid of the chain the extrapolated solution is the more accurate one
     cmp_n = 0
     for (name, dirbc, strat, cc, cg, extr), (e2, ei) in errs.items():
